@@ -143,6 +143,8 @@ def _r3_piece(piece):
 
 def make_tokeniser(cfg):
     return Tokeniser(num_tracks=cfg["ntracks"], pitch_range=tuple(cfg["pitch_range"]),
+                     step_sizes=list(cfg["step_sizes"]) if cfg.get("step_sizes") else None,
+                     time_signature_range=tuple(cfg.get("ts_range", (2, 16))),
                      note_values=list(cfg["note_values"]) if cfg.get("note_values") else None,
                      velocity_bins=cfg["velocity_bins"],
                      flag_running_values=cfg["flags"][0], flag_fuse_track=cfg["flags"][1],
@@ -306,11 +308,13 @@ class TokWorld:
 
 # ------------------------------------------------------------------ generation
 
-def gen_piece(rng, ntracks, values, pitch_range, nbars=None, tier="quick"):
+def gen_piece(rng, ntracks, values, pitch_range, nbars=None, tier="quick", grids=None, ts_range=(2, 16)):
     nbars = nbars or (rng.choice([1, 2, 2, 3, 3, 3, 4, 4, 5, 6]) if tier == "quick" else
                       rng.choice([1, 2, 3, 3, 4, 4, 5, 6, 7, 8, 10]))
     # a small palette per piece, so that a signature is left and *returned to* (A -> B -> A) often
-    palette = rng.sample(SIGS[:12], rng.choice([2, 2, 3])) if rng.random() < 0.75 else list(SIGS)
+    sigs_ok = [sg for sg in SIGS if ts_range[0] <= sg[0] * 8 // sg[1] <= ts_range[1]
+               and (grids is None or bar_len(*sg) % max(grids) == 0)]
+    palette = (rng.sample(sigs_ok[:12], min(len(sigs_ok[:12]), rng.choice([2, 2, 3]))) if rng.random() < 0.75 else list(sigs_ok))
     sig = rng.choice(palette)
     p_change = rng.choice([0.0, 0.2, 0.5, 0.8])
     bars = []
@@ -318,7 +322,7 @@ def gen_piece(rng, ntracks, values, pitch_range, nbars=None, tier="quick"):
     pitches = [sorted({rng.randrange(lo, hi + 1) for _ in range(rng.randrange(1, 4))}) for _ in range(ntracks)]
     track_len = [rng.choice([nbars, nbars, rng.randrange(0, nbars + 1)]) for _ in range(ntracks)]
     track_len[rng.randrange(ntracks)] = nbars
-    grid = rng.choice([2, 4, 6, 6, 12])
+    grid = rng.choice(grids) if grids else rng.choice([2, 4, 6, 6, 12])
     # real music repeats itself: a bar may be a literal repeat of an earlier bar (content of every track and signature),
     # and a piece often lives on two or three note values and velocities
     p_repeat_bar = rng.choice([0.0, 0.0, 0.3, 0.6])
@@ -383,7 +387,10 @@ def gen_cfg(rng):
     values = sorted(rng.sample(ALL_VALUES, rng.randrange(2, len(ALL_VALUES) + 1))) if rng.random() < 0.4 else list(ALL_VALUES)
     lo = rng.choice([21, 36, 48, 60])
     hi = rng.choice([72, 84, 96, 108])
-    return {"ntracks": ntracks, "pitch_range": [lo, hi], "note_values": values,
+    step_sizes, grids = rng.choice([(None, None), (None, None), (None, None), ([6, 12, 24], [6, 12]), ([2, 4, 8, 16], None),
+                                    ([2, 6, 24], None), ([12, 24], [12])])
+    return {"ntracks": ntracks, "pitch_range": [lo, hi], "note_values": values, "step_sizes": step_sizes, "grids": grids,
+            "ts_range": rng.choice([(2, 16), (2, 16), (1, 24), (2, 14)]),
             "velocity_bins": 1 if rng.random() < 0.93 else rng.choice([2, 4, 8]),
             "flags": [rng.random() < 0.6, rng.random() < 0.5, rng.random() < 0.5, rng.random() < 0.5, rng.random() < 0.7],
             "insert_bar_token": rng.random() < 0.85}
@@ -403,7 +410,8 @@ def tok_run_one(seed, tier, index):
             if rng.random() < 0.5 and len(piece["bars"]) > 1:
                 rng.shuffle(piece["bars"])
         else:
-            piece = gen_piece(rng, cfg["ntracks"], cfg["note_values"], cfg["pitch_range"], tier=tier)
+            piece = gen_piece(rng, cfg["ntracks"], cfg["note_values"], cfg["pitch_range"], tier=tier, grids=cfg.get("grids"),
+                              ts_range=cfg.get("ts_range", (2, 16)))
         clients.append({"piece": piece, "route": rng.choice(["R1", "R2", "R3", "R3"]), "cuts": gen_cuts(rng, piece)})
     init = {"cfg": cfg, "clients": clients}
     world = TokWorld(init)
